@@ -1,17 +1,22 @@
 package props
 
 import (
-	liqV2types "github.com/comdex-official/comdex/x/liquidationsV2/types"
 	"fmt"
+	"math/big"
 	"sort"
 	"testing"
 	"time"
 
 	sdk "github.com/cosmos/cosmos-sdk/types"
 
+	auctiontypes "github.com/comdex-official/comdex/x/auction/types"
 	auctionsV2types "github.com/comdex-official/comdex/x/auctionsV2/types"
+	lendtypes "github.com/comdex-official/comdex/x/lend/types"
+	liqtypes "github.com/comdex-official/comdex/x/liquidation/types"
+	liqV2types "github.com/comdex-official/comdex/x/liquidationsV2/types"
 
 	"verif/ev"
+	"verif/sim"
 )
 
 // lendView builds a cdpU view over a lend universe so that the typed snapshot and the auction monitors can be reused.
@@ -59,6 +64,10 @@ func c10LendRun(t *testing.T, rec *ev.Rec, run int) {
 		msg := &liqV2types.MsgAppReserveFundsRequest{From: c.Accts[5].Addr.String(), AppId: e.u.App, AssetId: id, TokenQuantity: sdk.NewCoin(e.u.Assets[id].Denom, amt)}
 		res := c.Deliver(c.Accts[5], msg)
 		observe(&cdpEvent{Kind: "tx", Op: "reserve_fund", Signer: c.Accts[5], Msg: msg, Res: res, Desc: fmt.Sprintf("%s%s", amt, e.u.Assets[id].Denom)})
+	}
+	startPrice := map[uint64]uint64{}
+	for _, id := range e.u.Order {
+		startPrice[id], _ = e.u.Price(id)
 	}
 	steps := ev.Pick(3000, 20000)
 	for i := 0; i < steps && !e.panicked; i++ {
@@ -129,11 +138,7 @@ func c10LendRun(t *testing.T, rec *ev.Rec, run int) {
 			if res.OK() {
 				rec.Count("op_bid_market_v2_lend_ok", 1)
 			} else {
-				l := res.Log
-				if len(l) > 90 {
-					l = l[len(l)-90:]
-				}
-				rec.Count("lend_bid_rejected: "+l, 1)
+				rec.Count("lend_bid_rejected: "+c08LogClass(res.Log), 1)
 				if dbgLendBid != nil {
 					dbgLendBid(res.Log)
 				}
@@ -141,7 +146,188 @@ func c10LendRun(t *testing.T, rec *ev.Rec, run int) {
 			observe(&cdpEvent{Kind: "tx", Op: "bid_market_v2", Signer: bidder, Msg: msg, Res: res, Desc: fmt.Sprintf("auction=%d amt=%s rem=%s", a.AuctionId, amt, rem)})
 		}
 	}
+	for id, p := range startPrice {
+		e.u.SetPrice(id, p, true)
+	}
+	observe(&cdpEvent{Kind: "env", Op: "price", Desc: "prices back at their start values"})
+	c.NextBlock(6 * time.Second)
+	observe(&cdpEvent{Kind: "block", Op: "next", Desc: fmt.Sprintf("h=%d", c.Header.Height)})
+	c10LendGen1Phase(e, rec, ev.Pick(30, 120))
+	rec.Floor("auctions_opened_gen1_lend", 3)
+	rec.Floor("bids_checked_gen1-lend", 5)
 	if run == 0 {
 		rec.Sample(map[string]interface{}{"universe": "lend auctions", "variant": variant, "history_tail": e.tail(6)})
+	}
+}
+
+// c10LendGen1Phase: generation-1 lend Dutch auctions (opened by the liquidate-borrow message of x/liquidation, bid on
+// with x/auction MsgPlaceDutchLendBidRequest). The generation-1 begin blockers are not wired at this commit, so the
+// posted price of such an auction never moves; what real transactions reach is decided:
+//
+//	per bid      paid in total <= target, received in total <= what the seizure moved into custody, and the bidder
+//	             receives no more than the payment plus the advertised bonus buys at the posted price
+//	at the end   with no generation-1 lend auction left, nothing of it remains in generation-1 auction custody
+func c10LendGen1Phase(e *c08Env, rec *ev.Rec, rounds int) {
+	c := e.c
+	m := &c09LendMon{e: e, rec: ev.NewScratch()}
+	custody := func() map[string]*big.Int {
+		out := map[string]*big.Int{}
+		for _, id := range e.u.Order {
+			d := e.u.Assets[id].Denom
+			out[d] = c.Bal(c.ModAddr(auctiontypes.ModuleName), d).BigInt()
+		}
+		return out
+	}
+	type led struct {
+		target, seized, paid, recv *big.Int
+		coll, debt                 string
+	}
+	ledgers := map[uint64]*led{}
+	base := custody()
+	if len(e.gen1LendAuctions()) != 0 {
+		return
+	}
+	settle := func(ctxDesc string, l *led) {
+		if len(e.gen1LendAuctions()) != 0 {
+			return
+		}
+		rec.Eval(1)
+		rec.Count("gen1_lend_custody_checks_with_no_live_auction", 1)
+		now := custody()
+		for _, id := range e.u.Order {
+			d := e.u.Assets[id].Denom
+			if now[d].Cmp(base[d]) != 0 {
+				rec.Violate("C10/custody/gen1-lend/remainder-with-no-live-auction", fmt.Sprintf("no generation-1 lend auction is live but the auction module holds %s%s more than before the first one opened", bigSub(now[d], base[d]), d),
+					map[string]interface{}{"denom": d, "held": now[d].String(), "held_before": base[d].String(), "after": ctxDesc, "last_auction_moved_into_custody": l.seized.String(), "last_auction_bidders_received": l.recv.String(), "last_auction_bidders_paid": l.paid.String(), "last_auction_target": l.target.String(), "history_tail": e.tail(8)})
+				base[d] = now[d] // report each remainder once
+			}
+		}
+	}
+	for round := 0; round < rounds && !e.panicked; round++ {
+		// a fresh position close to its bound every other round, so that the phase does not depend on what the
+		// long history before it has left
+		var b lendtypes.BorrowAsset
+		ok := false
+		if round%2 == 0 {
+			before := c.App.LendKeeper.GetUserBorrowIDCounter(c.Ctx())
+			e.force = []string{"same-pool", "inter-pool", "same-pool", "emode"}[(round/2)%4]
+			e.txStep()
+			if id := c.App.LendKeeper.GetUserBorrowIDCounter(c.Ctx()); id > before {
+				b, ok = c.App.LendKeeper.GetBorrow(c.Ctx(), id)
+			}
+		}
+		if !ok {
+			b, ok = m.pickBorrow(e.snap(), false)
+		}
+		if !ok {
+			continue
+		}
+		asset, old := m.moveToRatio(b, int64(1050+e.rnd.Intn(400)))
+		if old == 0 {
+			continue
+		}
+		who := c.Accts[e.rnd.Intn(len(c.Accts))]
+		before := custody()
+		known := map[uint64]bool{}
+		for _, a := range e.gen1LendAuctions() {
+			known[a.AuctionId] = true
+		}
+		res, _ := e.deliver(who, &liqtypes.MsgLiquidateBorrowRequest{From: who.Addr.String(), BorrowId: b.ID})
+		e.log(fmt.Sprintf("%s sends the generation-1 liquidate message for borrow %d (in=%s out=%s) -> ok=%v", who.Name, b.ID, b.AmountIn, b.AmountOut, res.OK()))
+		e.u.SetPrice(asset, old, true)
+		after := custody()
+		for _, a := range e.gen1LendAuctions() {
+			if known[a.AuctionId] {
+				continue
+			}
+			d := a.OutflowTokenInitAmount.Denom
+			ledgers[a.AuctionId] = &led{target: a.InflowTokenTargetAmount.Amount.BigInt(), seized: bigSub(after[d], before[d]), paid: new(big.Int), recv: new(big.Int), coll: d, debt: a.InflowTokenTargetAmount.Denom}
+			rec.Count("auctions_opened_gen1_lend", 1)
+		}
+		// bids until the auctions are gone (or nobody can bid any more)
+		for k := 0; k < 8; k++ {
+			as := e.gen1LendAuctions()
+			if len(as) == 0 {
+				break
+			}
+			a := as[e.rnd.Intn(len(as))]
+			l := ledgers[a.AuctionId]
+			lv, found := c.App.LiquidationKeeper.GetLockedVault(c.Ctx(), a.AppId, a.LockedVaultId)
+			var bidder *sim.Acct
+			for _, x := range c.Accts {
+				if found && x.Addr.String() != lv.Owner && (bidder == nil || e.rnd.Intn(3) == 0) {
+					bidder = x
+				}
+			}
+			if l == nil || bidder == nil {
+				break
+			}
+			left := a.OutflowTokenCurrentAmount.Amount
+			var amt sdk.Int
+			cls := ""
+			switch x := e.rnd.Intn(100); {
+			case x < 10:
+				amt, cls = sdk.NewInt(int64(1+e.rnd.Intn(100))), "tiny"
+			case x < 45:
+				amt, cls = left, "all-collateral"
+			case x < 52:
+				amt, cls = left.AddRaw(1), "all-collateral+1"
+			default:
+				amt, cls = left.MulRaw(int64(1+e.rnd.Intn(98))).QuoRaw(100).AddRaw(1), "partial"
+			}
+			p0, r0 := c.Bal(bidder.Addr, l.debt), c.Bal(bidder.Addr, l.coll)
+			res, _ := e.deliver(bidder, auctiontypes.NewMsgPlaceDutchLendBid(bidder.Addr.String(), a.AuctionId, sdk.NewCoin(l.coll, amt), a.AppId, a.AuctionMappingId))
+			desc := fmt.Sprintf("%s bids for %s%s on generation-1 lend auction %d (left %s, raised %s of %s, posted price %s, debt price %s) [%s] -> ok=%v", bidder.Name, amt, l.coll, a.AuctionId, a.OutflowTokenCurrentAmount, a.InflowTokenCurrentAmount, a.InflowTokenTargetAmount, a.OutflowTokenCurrentPrice, a.InflowTokenCurrentPrice, cls, res.OK())
+			e.log(desc)
+			rec.Count("op_bid_gen1_lend_attempted", 1)
+			if !res.OK() {
+				rec.Count("gen1_lend_bid_rejected: "+c08LogClass(res.Log), 1)
+				continue
+			}
+			rec.Count("op_bid_gen1_lend_ok", 1)
+			paid := bigSub(p0.BigInt(), c.Bal(bidder.Addr, l.debt).BigInt())
+			recv := bigSub(c.Bal(bidder.Addr, l.coll).BigInt(), r0.BigInt())
+			if l.coll == l.debt {
+				continue
+			}
+			rec.Eval(1)
+			rec.Count("bids_checked_gen1-lend", 1)
+			l.paid.Add(l.paid, paid)
+			l.recv.Add(l.recv, recv)
+			w := map[string]interface{}{"bid": desc, "paid": paid.String(), "received": recv.String(), "target": l.target.String(), "moved_into_custody_at_seizure": l.seized.String(), "paid_so_far": l.paid.String(), "received_so_far": l.recv.String(), "history_tail": e.tail(6)}
+			if l.paid.Cmp(l.target) > 0 {
+				rec.Violate("C10/bid/gen1-lend/bidders-paid-more-than-target", fmt.Sprintf("bidders paid %s in total, target %s", l.paid, l.target), w)
+			}
+			if l.recv.Cmp(l.seized) > 0 {
+				rec.Violate("C10/bid/gen1-lend/bidders-received-more-than-seized", fmt.Sprintf("bidders received %s in total, the seizure moved %s into custody", l.recv, l.seized), w)
+			}
+			collA, debtA := e.u.ByDenom[l.coll], e.u.ByDenom[l.debt]
+			pair, _ := e.pair(lv.ExtendedPairId)
+			par, _ := c.App.LendKeeper.GetAssetRatesParams(c.Ctx(), pair.AssetIn)
+			if collA != nil && debtA != nil && a.OutflowTokenCurrentPrice.IsPositive() {
+				// received <= (paid + 1) * (1 + bonus) * debtPrice/debtDec / postedPrice * collDec + 2
+				v := new(big.Rat).SetFrac(bigAdd(paid, big.NewInt(1)), debtA.Decimals)
+				v.Mul(v, c08DecRat(a.InflowTokenCurrentPrice))
+				v.Quo(v, c08DecRat(a.OutflowTokenCurrentPrice))
+				v.Mul(v, new(big.Rat).SetInt(collA.Decimals))
+				v.Mul(v, new(big.Rat).Add(big.NewRat(1, 1), c08DecRat(par.LiquidationBonus)))
+				v.Add(v, big.NewRat(2, 1))
+				if new(big.Rat).SetInt(recv).Cmp(v) > 0 {
+					w["bound"] = v.FloatString(3)
+					rec.Violate("C10/bid/gen1-lend/received-more-than-paid-plus-bonus-buys-at-posted-price", fmt.Sprintf("received %s, at the posted price the payment plus the bonus buys at most %s", recv, v.FloatString(3)), w)
+				}
+			}
+			still := false
+			for _, x := range e.gen1LendAuctions() {
+				if x.AuctionId == a.AuctionId {
+					still = true
+				}
+			}
+			if !still {
+				rec.Count("auctions_closed_gen1_lend", 1)
+				settle(desc, l)
+			}
+		}
+		c.NextBlock(6 * time.Second)
 	}
 }
